@@ -6,7 +6,7 @@ RULE = ("conventional single-line-value files (all 7 delimiter sets x 3 comment 
         "insertion point; comment texts over the full printable alphabet with 0-3 further comment characters, delimiters, "
         "quotes, brackets, with and without indentation; also under PYTHON_STYLE / JOIN_SAME_ENTRIES; the listing (sections, "
         "keys, values) of the file with the comment lines must equal that of the file without them, and both must be read "
-        "successfully; distinct by bytes")
+        "successfully; the two files must also act alike as base and as override of a merge; distinct by bytes")
 
 NASTY = [b"old=1 # disabled", b"# heading", b"a #b", b" [sec]", b"[x]", b"k = \"q", b"\"", b"=", b"#", b";", b"; x = y ; z",
          b"key value", b"\\", b" ", b"", b"a=b=c", b"[", b"]", b"[]", b"x\ty", b"#;#;", b"\xe4\xff", b"k:v"]
@@ -49,14 +49,28 @@ def gen(rng, tier):
         cmds = [gens.parse_cmd(0, b"/g/f.conf", e["bytes"], dl, cm, py, jn), "getall 0"]
         for i, v in enumerate(variants):
             cmds += [gens.parse_cmd(1 + i, b"/g/f.conf", v, dl, cm, py, jn), "getall %d" % (1 + i)]
-        out.append(Scenario(cmds, tags=("class" + grammar.cls(dl),)))
+        sc = Scenario(cmds, tags=("class" + grammar.cls(dl),))
+        sc.npairs = 1 + len(variants)
+        if variants and not py and not jn:
+            # the same files as inputs of a merge: the file with the comment lines must act exactly like the one without
+            sc.cmds += [gens.parse_cmd(10, b"/g/h.conf", e["bytes"], dl, cm), "merge 19 0 10", "getall 19", "merge 20 0 1", "getall 20",
+                        "merge 21 1 0", "getall 21"]
+            sc.obs += [True] * 7
+            sc.merged = True
+        out.append(sc)
     return out
 
 def oracle(s, ilines):
     if len(ilines) < 2: return "missing output"
     if ilines[0] != "rc=0": return "conventional file refused: " + ilines[0]
     base = gramlib.listing_of(ilines[1])
-    for i in range(2, len(ilines) - 1, 2):
+    np = getattr(s, "npairs", len(ilines) // 2)
+    if getattr(s, "merged", False) and len(ilines) >= 2 * np + 7:
+        ref = gramlib.listing_of(ilines[2 * np + 2])
+        for j in (4, 6):
+            if gramlib.listing_of(ilines[2 * np + j]) != ref:
+                return "a comment line changed the result of a merge (%s): without %s | with %s" % (s.cmds[2 * np + j - 1], ref[:6], gramlib.listing_of(ilines[2 * np + j])[:6])
+    for i in range(2, 2 * np - 1, 2):
         if ilines[i] != "rc=0": return "file with an inserted comment line refused: %s" % ilines[i]
         if gramlib.listing_of(ilines[i + 1]) != base:
             return "a comment line changed the configuration: %s | without: %s | with: %s" % (s.cmds[i][:200], base[:6], gramlib.listing_of(ilines[i + 1])[:6])
